@@ -27,11 +27,24 @@ class WorkerAbort(Exception):
 
 
 class Sched:
+    procs_ever = False
+
     def __init__(self):
+        self.tag = ''
         self.reset()
+        self.procs_ever = False
+
+    epoch = 0
 
     def reset(self, K=2, faults=False, fault_modes=None, max_faults=1,
               fault_steps=0):
+        # several dispatches on one path (e.g. a run and its baseline):
+        # keep the names of the scheduler's choices apart
+        ctx = core.CUR
+        n = getattr(ctx, '_mp_epoch', 0) if ctx is not None else 0
+        self.tag = '' if n == 0 else f"e{n}:"
+        if ctx is not None:
+            ctx._mp_epoch = n + 1
         self.procs = []
         self.order = []          # completion order (indices)
         self.K = K
@@ -84,7 +97,7 @@ class Process:
         ctx = core.CUR
         mode = 'ok'
         if SCHED.faults and SCHED.n_faults < SCHED.max_faults:
-            mode = SCHED.fault_modes[ctx.choice(f"fault[{self.idx}]",
+            mode = SCHED.fault_modes[ctx.choice(f"{SCHED.tag}fault[{self.idx}]",
                                                 len(SCHED.fault_modes))]
         if mode != 'ok':
             SCHED.n_faults += 1
@@ -100,7 +113,7 @@ class Process:
             self._run()
             self._code = 1
         elif mode == 'raise_at':
-            n = ctx.choice(f"fault_step[{self.idx}]",
+            n = ctx.choice(f"{SCHED.tag}fault_step[{self.idx}]",
                            max(1, SCHED.fault_steps))
             SCHED.step_budget = n
             try:
@@ -133,7 +146,7 @@ class Process:
         if self.polls > SCHED.K:
             fin = True
         else:
-            fin = core.CUR.flag(f"fin[{self.idx},{self.polls}]")
+            fin = core.CUR.flag(f"{SCHED.tag}fin[{self.idx},{self.polls}]")
         if not fin:
             return None
         try:
